@@ -23,8 +23,8 @@ EXPLANATION = (
     "for every strand pair and flag combination, and compared with the position-set oracle; for kernels that touch "
     "their inputs only through comparisons this decides them for all integers. R2: no write to a Location field "
     "outside the constructors and named memo accessors. R3/R3b: flag forwarding and result-strand discipline at "
-    "every delegation site. R4: _EmptyLocation method table. Not decided: arbitrary numbers of blocks, distance "
-    "arithmetic, cgranges path."
+    "every delegation site. R4: _EmptyLocation method table. R5-R7: derived operations, three-block receivers / distance, and the optional cgranges "
+    "branch through a native model of the index. Not decided: arbitrary numbers of blocks; the real cgranges library."
 )
 
 LOC = "location.location_impl"
